@@ -88,7 +88,7 @@ PROPS = {
                                 "reset_clean", "closed_handle", "double_end", "no_panic", "no_panic_from", "err_persists", "sticky_program"], ["c12"],
                        {"assumptions": ["partial: build_ok_parses is a theorem for the programs of value trees (C01.written_tree_reads_back) and Copy/Merge programs (C16.copy_preserves); for arbitrary misuse programs it is decided by the differential stream and the Go-side oracle; no_panic covers the whole alphabet incl. Copy/Merge from arbitrary bytes",
                                         "calls through a handle kind the Go type system rejects are outside the alphabet (bad-op)"]}),
-    "C16": writer_prop("C16", ["common_field_unchanged", "absent_field_zero", "order_irrelevant", "copy_preserves"], ["c16"],
+    "C16": writer_prop("C16", ["common_field_unchanged", "absent_field_zero", "order_irrelevant", "copy_preserves", "copy_any_depth"], ["c16"],
                        {"assumptions": ["copy_preserves: source message well formed (distinct tags < 2^16, self-delimiting values), written fields with distinct tags, total size below 2^32",
                                         "the generated-code leg (schemas A/A' through the compiler) belongs to C05's machinery"]}),
 }
